@@ -11,6 +11,7 @@ import (
 	"sort"
 	"strings"
 	"sync"
+	"sync/atomic"
 	"time"
 )
 
@@ -237,6 +238,7 @@ func cmdCheck(args []string) int {
 	genS := time.Since(start).Seconds() - loadS
 	// discharge
 	var wg sync.WaitGroup
+	var nFailed int32
 	sem := make(chan struct{}, 6)
 	for _, r := range results {
 		if r.File == "" {
@@ -247,6 +249,16 @@ func cmdCheck(args []string) int {
 			defer wg.Done()
 			sem <- struct{}{}
 			defer func() { <-sem }()
+			if atomic.LoadInt32(&nFailed) >= 4 && r.Obl.Kind != "vacuity" {
+				// enough violations to report; the remaining obligations are not attempted
+				r.Status = "skipped"
+				return
+			}
+			defer func() {
+				if r.Status == "failed" || r.Status == "canary-failed" {
+					atomic.AddInt32(&nFailed, 1)
+				}
+			}()
 			t := timeoutS
 			if r.Obl.Kind == "vacuity" {
 				t = 5
@@ -328,6 +340,7 @@ func report(verif, repo string, ps *PropSpec, tier string, seed int, results []*
 	var failed []*Result
 	var samples []map[string]interface{}
 	canaries, canaryFailed := 0, 0
+	skipped := 0
 	for _, r := range results {
 		if r.Obl.Kind == "vacuity" {
 			canaries++
@@ -343,6 +356,8 @@ func report(verif, repo string, ps *PropSpec, tier string, seed int, results []*
 		case "discharged", "trivial":
 			discharged++
 			bySolver[r.Solver]++
+		case "skipped":
+			skipped++
 		default:
 			failed = append(failed, r)
 		}
@@ -464,6 +479,7 @@ func report(verif, repo string, ps *PropSpec, tier string, seed int, results []*
 			"solver_time_s":            round3(solverTime),
 			"load_s":                   round3(loadS),
 			"generate_s":               round3(genS),
+			"not_attempted_after_failures": skipped,
 			"vacuity_canaries":         canaries,
 			"vacuity_canaries_failed":  canaryFailed,
 			"abstractions":             keysOf(abstr),
